@@ -233,6 +233,18 @@ def run_property(pid, tier="quick", repo_root=None, jobs=None):
     if status == 0:
         lines.append(f"HELD property={pid} obligations={n_obl} discharged={discharged} known_findings={len(known)} "
                      f"functions={len(funcs)} paths={n_paths} solver_s={solver_time:.2f}")
+    thorough = None
+    if tier == "thorough" and status == 0 and OUT == VERIF:
+        thorough = thorough_extras(pid, repo_root, seed, info)
+        for c_ in thorough["canaries"]:
+            if not c_["detected"]:
+                lines.insert(0, f"ENGINE-ERROR property={pid} the seeded change {c_['seed']} is no longer detected by this check (exit {c_['check_exit']})")
+                status = 3
+        for x_ in thorough["native_cross_checks"]:
+            if x_["disagreements"]:
+                lines.insert(0, f"ENGINE-ERROR property={pid} native cross-check {x_['harness']}: the real function and the contract's oracle disagree on "
+                                f"{x_['disagreements']} of {x_['cases']} cases (first: {json.dumps(x_['first_disagreement'])[:300]})")
+                status = 3
     wall = time.time() - t0
     # ---- evidence
     ext_cites = {k: schema.contracts[k].cite for k in sorted(trusted) if k in schema.contracts}
@@ -272,6 +284,7 @@ def run_property(pid, tier="quick", repo_root=None, jobs=None):
             "samples": samples,
             "what_is_proved": info.get("proved", ""),
             "engine_errors": errors,
+            "thorough_extras": thorough if thorough is not None else "quick tier: not run",
         },
         "assumptions": sorted(f"{a}: {schema.assumption_tags.get(a, P.ASSUMPTIONS.get(a, ''))}" for a in assumptions),
         "wall_s": round(wall, 3),
@@ -283,6 +296,61 @@ def run_property(pid, tier="quick", repo_root=None, jobs=None):
     for l in lines:
         print(l)
     return status
+
+
+# ----------------------------------------------------------------------
+# thorough tier: (a) canaries - every archived seeded change of this property, applied to a scratch copy of the repository, must still make this
+# check report a violation (a check that lost its teeth is an engine error, never a violation); (b) bounded native cross-checks of the contract's
+# oracle against the real function on pseudo-random inputs (labelled bounded; they add no proved obligation).
+def thorough_extras(pid, repo_root, seed, info):
+    import glob
+    import random
+    import shutil
+    import tempfile
+    out = {"canaries": [], "native_cross_checks": [], "label": "bounded / meta checks, none of them counted as a proved obligation"}
+    for d in sorted(glob.glob(os.path.join(VERIF, "seeded", f"{pid}-*"))):
+        patch = os.path.join(d, "patch.diff")
+        if not os.path.exists(patch):
+            continue
+        work = tempfile.mkdtemp(prefix="pyvc-canary-")
+        try:
+            shutil.copytree(repo_root, os.path.join(work, "repo"), ignore=shutil.ignore_patterns(".git"))
+            os.makedirs(os.path.join(work, "out"))
+            with open(patch) as fh:
+                pr = subprocess.run(["patch", "-p1", "-s", "--no-backup-if-mismatch"], stdin=fh, cwd=os.path.join(work, "repo"),
+                                    capture_output=True, text=True)
+            if pr.returncode != 0:
+                out["canaries"].append({"seed": os.path.basename(d), "applies": False, "detected": True, "check_exit": None,
+                                        "note": "the patch no longer applies to the current tree (the code it changes has changed)"})
+                continue
+            env = {**os.environ, "VERIF_REPO": os.path.join(work, "repo"), "VERIF_OUT": os.path.join(work, "out"), "VERIF_TIER": "quick"}
+            with open(os.path.join(work, "log"), "w") as lf:
+                cp = subprocess.run([sys.executable, "-m", "pyvc.driver", pid, "--tier", "quick"], cwd=VERIF, env=env, stdout=lf, stderr=lf,
+                                    stdin=subprocess.DEVNULL)
+            obl = []
+            for f in glob.glob(os.path.join(work, "out", "replays", pid, "*.json")):
+                try:
+                    obl.append(json.load(open(f))["obligation"])
+                except Exception:
+                    pass
+            out["canaries"].append({"seed": os.path.basename(d), "applies": True, "detected": cp.returncode == 1, "check_exit": cp.returncode,
+                                    "violated_obligations": sorted(obl)})
+        finally:
+            shutil.rmtree(work, ignore_errors=True)
+    rng = random.Random(seed)
+    for harness, gen, n in info.get("native_cross_checks", []):
+        cases = [gen(rng) for _ in range(n)]
+        bad = []
+        distinct = len({json.dumps(c_, sort_keys=True) for c_ in cases})
+        res = run_harness("batch", {"harness": harness, "cases": cases}, repo_root)
+        for c_, r_ in zip(cases, res.get("results", [])):
+            if r_.get("reproduced") or r_.get("error"):
+                bad.append({"input": c_, "result": r_})
+        out["native_cross_checks"].append({"harness": harness, "cases": len(cases), "distinct_cases": distinct, "answered": len(res.get("results", [])),
+                                           "disagreements": len(bad) + (len(cases) - len(res.get("results", []))),
+                                           "first_disagreement": bad[0] if bad else (res.get("error") if len(res.get("results", [])) != len(cases) else None),
+                                           "sample": cases[:2]})
+    return out
 
 
 # ----------------------------------------------------------------------
